@@ -11,10 +11,17 @@ Full product of
   x seed in {unset, 0, 7}               (for the algorithms that have a seed setting)
   x entry point in {``compute_doe``, ``execute`` on an ``OptimizationProblem``}.
 
+Tiers: thorough is the product above; quick keeps every algorithm, dimension, layout, type mix and entry point and
+reduces value axes only (seed in {unset, 0}; n_samples in {1, 13} for sampling algorithms, {1, 5, 13, 60} for structured
+ones).  A subset (entry compute_doe, layout asym, mixed types - integer in dimension 1) is recomputed in fresh
+interpreter processes started with another PYTHONHASHSEED.
+
 Oracles (DESIGN.md section 5, C14) - all comparisons are exact (``==`` on float64, ``tobytes``):
 
   shape                 2-D array with one column per design-space component, finite values
-  inside-bounds         lb <= samples <= ub                                  (algorithms of BOUNDS_HELD only)
+  inside-bounds         lb <= samples <= ub (algorithms designed to fill the domain only, see ``oracle_table``); an
+                        excess within the rounding error of the affine map u*(ub-lb)+lb (<= 4 eps max(|lb|,|ub|)) is
+                        reported under the separate invariant ``inside-bounds-rounding``
   unit-in-cube          0 <= unit samples <= 1                               (same algorithms)
   integer-components    integer components hold integral values
   column-order          columns follow the design-space order: the layouts asym/neg/degenerate have pairwise
@@ -325,9 +332,20 @@ def settings_for(case: dict, lb, ub, ints, scratch: str | None):
         elif form == "list-of-dicts":
             s["samples"] = [{k: parts[k][i] for k in sorted(parts)} for i in range(n)]
         else:
+            import pandas
+
             path = os.path.join(scratch or tempfile.gettempdir(), f"c14_custom_{os.getpid()}.csv")
-            np.savetxt(path, rows, delimiter=",", fmt="%.18e")
+            Path(path).write_text("\n".join(",".join(repr(float(v)) for v in row) for row in rows) + "\n")
             s["doe_file"] = path
+            # Oracle boundary: the input of the DOE is what the CSV parser delivers.  pandas' default float parser is
+            # not correctly rounded (a bound written with 17 digits may come back one ulp outside); the reference rows
+            # are the parsed ones and the bounds clause is held only if they are inside.
+            parsed = pandas.read_csv(path, header=None).to_numpy(dtype=float)
+            if not same(parsed, rows):
+                exp["file_parse_inexact"] = True
+                exp["custom_rows"] = parsed
+                if ((parsed < lb) | (parsed > ub)).any():
+                    exp["bounds"] = False
     elif algo == "PYDOE_BBDESIGN":
         if size != "default":
             s["center"] = int(size[-1])
@@ -455,6 +473,8 @@ def check_case(case: dict, scratch: str | None = None) -> dict:
         return res
     res["executed"] = True
     samples = np.asarray(samples)
+    if exp.get("file_parse_inexact"):
+        obs["file_parse_inexact"] = True
     obs.update(n=int(samples.shape[0]) if samples.ndim else None, lb=lb.tolist(), ub=ub.tolist(), integer=ints.tolist())
 
     # shape ------------------------------------------------------------------------------------------------------
@@ -472,10 +492,20 @@ def check_case(case: dict, scratch: str | None = None) -> dict:
     if outside.any():
         i, j = np.argwhere(outside)[0]
         msg = f"sample {i} component {j} = {samples[i, j]!r} outside [{lb[j]!r}, {ub[j]!r}] (excess {max(lb[j] - samples[i, j], samples[i, j] - ub[j])!r}); {int(outside.sum())} components outside"
-        if exp["bounds"]:
-            bad(("inside-bounds", msg))
-        else:
+        # Rounding class: x = fl(fl(u * fl(ub - lb)) + lb) with u in [0, 1] carries three roundings of relative size
+        # 2^-53 on quantities bounded by |ub - lb| <= 2M and M = max(|lb|, |ub|): it can exceed a bound by at most
+        # 5 * 2^-53 * M < 4 * eps * M.  Such an excess is reported under its own invariant (one defect site: the affine
+        # map of DesignSpace.unnormalize_vect is not exact at u = 1), anything larger as ``inside-bounds``.
+        excess = np.maximum(lb - samples, samples - ub)
+        rounding = 4 * np.finfo(float).eps * np.maximum(np.abs(lb), np.abs(ub))
+        gross = outside & (excess > rounding)
+        if not exp["bounds"]:
             obs["outside_not_held"] = msg
+        elif gross.any():
+            i, j = np.argwhere(gross)[0]
+            bad(("inside-bounds", f"sample {i} component {j} = {samples[i, j]!r} outside [{lb[j]!r}, {ub[j]!r}] (excess {excess[i, j]!r}); {int(gross.sum())} components outside"))
+        else:
+            bad(("inside-bounds-rounding", msg + f" - within the rounding error of the affine map ({rounding[j]!r})"))
     # integrality --------------------------------------------------------------------------------------------------
     if ints.any():
         col = samples[:, ints]
@@ -502,7 +532,8 @@ def check_case(case: dict, scratch: str | None = None) -> dict:
             rev[d - VARS[d][-1][1] :] = True
         diff = np.diff(samples, axis=0)
         wrong = np.where(rev, (diff > 0).any(axis=0), (diff < 0).any(axis=0))
-        ends_ok = np.where(rev, (samples[0] == ub) & (samples[-1] == lb), (samples[0] == lb) & (samples[-1] == ub))
+        # from one end of the range to the other (the exact end values are the business of inside-bounds / image)
+        ends_ok = np.where(rev, samples[0] >= samples[-1], samples[0] <= samples[-1]) & ((lb == ub) | (samples[0] != samples[-1]))
         if wrong.any() or not ends_ok.all():
             bad(("column-order", f"reverse={settings.get('reverse')}: expected reversed components {rev.tolist()}, first sample {samples[0]}, last {samples[-1]}"))
     if algo == "CustomDOE":
@@ -513,12 +544,17 @@ def check_case(case: dict, scratch: str | None = None) -> dict:
         if given.shape != samples.shape or (np.abs(samples - given) > tol).any():
             bad(("column-order", f"custom samples given as {exp['custom_form']} in design-space order {_short(given)} came back as {_short(samples)}"))
     # determinism ---------------------------------------------------------------------------------------------------
+    # (the second run starts from the other initial value of the integer-normalization switch when there are integer
+    # components: the samples must not depend on it and it must be left as it was)
     deterministic = True
-    ds2 = make_space(d, layout, types, table)[0]
+    other = bool(ints.any())
+    ds2 = make_space(d, layout, types, table, int_norm=other)[0]
     _, again, unit2, _ = call(algo, ds2, settings, entry)
     if not same(samples, again):
         deterministic = False
-        bad(("determinism", f"two fresh library instances, same settings, seed={seed}: {_short(samples, 3)} then {_short(again, 3)}"))
+        bad(("determinism", f"two fresh library instances, same settings, seed={seed}" + (", enable_integer_variables_normalization initially False then True" if other else "") + f": {_short(samples, 3)} then {_short(again, 3)}"))
+    if ds2.enable_integer_variables_normalization is not other:
+        bad(("switch-restored", f"enable_integer_variables_normalization was {other} before the call and is {ds2.enable_integer_variables_normalization} after it"))
     if seed is not None and info["seed_setting"]:
         ds3 = make_space(d, layout, types, table)[0]
         _, third, _, _ = call(algo, ds3, settings, entry, lib=lib)
@@ -559,15 +595,6 @@ def check_case(case: dict, scratch: str | None = None) -> dict:
         if len(rows) != len(first) or any(not np.array_equal(a, b) for a, b in zip(rows, first)):
             bad(("database", f"database holds {len(rows)} points {_short(np.array(rows), 3)}; distinct samples in order: {len(first)} {_short(np.array(first), 3)}"))
         obs["distinct_rows"] = len(first)
-    # the other initial value of the switch ------------------------------------------------------------------------------
-    if ints.any():
-        ds6 = make_space(d, layout, types, table, int_norm=True)[0]
-        _, s6, _, _ = call(algo, ds6, settings, entry)
-        if ds6.enable_integer_variables_normalization is not True:
-            bad(("switch-restored", "enable_integer_variables_normalization was True before the call and is False after it"))
-        if deterministic and not same(samples, s6):
-            bad(("determinism", f"the initial value of enable_integer_variables_normalization changes the samples: {_short(samples, 3)} vs {_short(s6, 3)}"))
-
     dup = len({r.tobytes() for r in samples}) < n_got
     res["sharp"] = layout != "unit" or bool(ints.any())
     res["outcome"] = f"{info['kind']}:ok" + (":repeated-points" if dup else "") + (":outside(not held)" if "outside_not_held" in obs else "") + (":fewer-than-n" if obs.get("fewer_than_requested") else "")
@@ -585,21 +612,30 @@ def case_key(case: dict) -> tuple:
     return (case["algo"], case["d"], case["layout"], case["types"], case["size"], case["seed"], case["entry"])
 
 
-def layout_class(case: dict) -> str:
-    return case["layout"]
+# invariants that do not look at the bounds: one signature per algorithm, whatever the layout
+LAYOUT_FREE = {"count", "count-more-than-requested", "switch-restored", "determinism", "determinism-same-instance", "determinism-second-process"}
+
+
+def signature(inv: str, case: dict) -> dict:
+    """algorithm + invariant + layout class (the site of ``switch-restored-after-error`` is the entry point of the base class)."""
+    if inv == "switch-restored-after-error":
+        return {"invariant": inv, "algorithm": "any", "layout": "any", "entry": case["entry"]}
+    return {"invariant": inv, "algorithm": case["algo"], "layout": "any" if inv in LAYOUT_FREE else case["layout"]}
 
 
 def run_case(case: dict, tally) -> None:
     res = check_case(case, SCRATCH)
     key = case_key(case)
     algo = case["algo"]
-    sampled = res["executed"] and case["layout"] == "asym" and case["types"] == "mixed" and case["d"] == 3 and case["seed"] == 7 and case["entry"] == "compute_doe" and case["size"] in ("n5", "default", "p.5")
+    sampled = res["executed"] and case["layout"] == "asym" and case["types"] == "mixed" and case["d"] == 3 and case["seed"] in (0, None) and case["entry"] == "compute_doe" and case["size"] in ("n5", "default", "p.5")
     light = {k: v for k, v in case.items() if k != "info"}
     tally.case(key, nontrivial=res["executed"] and res["sharp"], outcome=res["outcome"], sample={"case": light, "observed": res["obs"]} if sampled and algo in ("OT_LHS", "MorrisDOE", "PYDOE_CCDESIGN", "Sobol", "OT_AXIAL", "CustomDOE") else None)
     if res["executed"]:
         tally.count(f"executed:{algo}")
         if "outside_not_held" in res["obs"]:
             tally.count(f"outside-bounds(not held):{algo}")
+        if res["obs"].get("file_parse_inexact"):
+            tally.count("CustomDOE:file-values-changed-by-the-CSV-parser")
         if res["obs"].get("fewer_than_requested"):
             tally.count("PoissonDisk:fewer-than-requested")
         if case.get("xproc") and res["digest"]:
@@ -612,18 +648,24 @@ def run_case(case: dict, tally) -> None:
             continue
         seen.add(inv)
         tally.violation(
-            {"invariant": inv, "algorithm": algo, "layout": layout_class(case)},
+            signature(inv, case),
             light,
             f"{inv}: {algo} size={case['size']} d={case['d']} layout={case['layout']} types={case['types']} seed={case['seed']} entry={case['entry']} (table {case['table']})\n"
             f"settings={res['obs'].get('settings')}\n{msg}",
         )
 
 
+def quick_size(algo: str, size: str) -> bool:
+    return size != "n2" and not (size == "n5" and (algo in SAMPLING or algo == "PoissonDisk"))
+
+
 def axes_for(ctx) -> dict:
     """Quick reduces value axes only: every algorithm, every layout, every type mix and both entry points stay."""
     if ctx.thorough:
         return {"d": DIMS, "layout": LAYOUTS, "types": TYPES, "seed": SEEDS, "entry": ENTRIES, "sizes": None}
-    return {"d": DIMS, "layout": LAYOUTS, "types": TYPES, "seed": SEEDS, "entry": ENTRIES, "sizes": None}
+    # quick: seed in {unset, 0} (0 is the sharp one: falsy, and refused by PositiveInt seeds); n_samples in {1, 13} for
+    # the sampling algorithms and {1, 5, 13, 60} for the structured ones (5 and 13 are exact fits of several designs)
+    return {"d": DIMS, "layout": LAYOUTS, "types": TYPES, "seed": SEEDS[:2], "entry": ENTRIES, "sizes": quick_size}
 
 
 def enumerate_cases(ctx, table: int, infos: dict, tally):
@@ -633,7 +675,7 @@ def enumerate_cases(ctx, table: int, infos: dict, tally):
             continue
         sizes = sizes_of(algo, info)
         if ax["sizes"] is not None:
-            sizes = [s for s in sizes if ax["sizes"](s)]
+            sizes = [s for s in sizes if ax["sizes"](algo, s)]
         seeds = ax["seed"] if info["seed_setting"] else [None]
         # simplest first: dimension, layout, types, size, seed, entry
         for c in product.full({"d": ax["d"], "layout": ax["layout"], "types": ax["types"], "size": sizes, "seed": seeds, "entry": ax["entry"]}):
@@ -697,6 +739,8 @@ def second_process(pairs: list, infos: dict, scratch: str, jobs: int) -> tuple[l
         for (case, dig), dig2 in zip(shard, out["digests"]):
             if dig != dig2:
                 mismatches.append((case, f"digest of the samples in this process {dig}, in a second interpreter process {dig2}", "determinism-second-process"))
+    rank = {json.dumps(c, sort_keys=True): i for i, (c, _) in enumerate(pairs)}
+    mismatches.sort(key=lambda m: rank.get(json.dumps(m[0], sort_keys=True), -1))  # simplest first, as enumerated
     return mismatches, meta
 
 
@@ -720,7 +764,7 @@ def run(ctx):
         if getattr(ctx, "only", None) and ctx.only not in a:
             continue
         if not tally.counters.get(f"executed:{a}"):
-            tally.violation({"invariant": "no-executable-case", "algorithm": a, "layout": "-"}, {"algo": a}, f"every enumerated case of {a} was refused by the library: nothing was checked for it")
+            tally.violation({"invariant": "no-executable-case", "algorithm": a, "layout": "any"}, {"algo": a}, f"every enumerated case of {a} was refused by the library: nothing was checked for it")
 
     # second process
     order = {a: i for i, a in enumerate(algorithms)}
@@ -731,7 +775,7 @@ def run(ctx):
         mismatches, xmeta = second_process(pairs, infos, ctx.scratch, ctx.jobs)
         tally.count("second-process-cases", len(pairs))
         for case, msg, inv in mismatches:
-            tally.violation({"invariant": inv, "algorithm": case["algo"], "layout": case.get("layout", "-")}, case, f"{inv}: {case['algo']} size={case.get('size')} d={case.get('d')} seed={case.get('seed')}\n{msg}")
+            tally.violation(signature(inv, case) if "layout" in case else {"invariant": inv, "algorithm": case["algo"], "layout": "any"}, case, f"{inv}: {case['algo']} size={case.get('size')} d={case.get('d')} seed={case.get('seed')}\n{msg}")
     tally.notes["second_process"] = xmeta
 
     executed = sum(v for k, v in tally.counters.items() if k.startswith("executed:"))
@@ -741,16 +785,17 @@ def run(ctx):
         "rule": "full product algorithm x dimension x bound layout x types x size parameter x seed x entry point; a case is "
         "non-trivial when the library produced samples (not refused) and the layout is not the unit cube or an integer "
         "component is present (so that the affine map / rounding is not the identity); each executed case runs the DOE "
-        "3 to 6 times (fresh instance, same instance, unit sampling, other initial switch value)",
+        "2 to 4 times (fresh instance; second fresh instance starting from the other value of the integer-normalization "
+        "switch; same instance again when the seed is explicit; unit sampling for compute_doe)",
         "exhaustive": True,
         "bounds": {
             "algorithms": len(algorithms),
             "dimensions": DIMS,
             "layouts": LAYOUTS,
             "types": TYPES,
-            "seeds": ["unset", 0, 7],
+            "seeds": ["unset" if v is None else v for v in axes_for(ctx)["seed"]],
             "entries": ENTRIES,
-            "sizes": {a: sizes_of(a, infos[a]) for a in algorithms},
+            "sizes": {a: [z for z in sizes_of(a, infos[a]) if ctx.thorough or quick_size(a, z)] for a in algorithms},
             "cases": len(cases),
             "executed": executed,
             "refused_by_the_library": skipped,
